@@ -36,9 +36,37 @@ CHECKS = {
             "and REPL sessions (replace_locals / release_orphan_locals), down to quantum 1; results are compared with the value the "
             "mechanism model assigns (ContentPreserved); refcount assertion panics are recorded as data.",
             RT_NOTE + " Reachability is recomputed by the harness from Process fields, not by reachable_heap_indices.", RT_TECH),
+    "C02": ("seqlang", "model_checking",
+            "spec/SeqLang.tla is a big-step evaluator of the documented sequential core written in TLA+ (value flow, nil short-circuit, "
+            "blocks/branches/condition-consequence, every pattern form, tuples/spreads/field access, functions, references, closures, "
+            "tail calls, strings); programs are produced as abstract syntax by a seeded feature-crossing generator, by an exhaustive "
+            "tiny-scope enumeration (every program up to 5-7 nodes) and from the test-suite / spec.md sources parsed by the REAL parser "
+            "(harness astdump); each is compiled and run by the real compiler + VM and TLC (spec/SeqLangTrace.tla) judges "
+            "`observed outcome \\in Eval(ast)`. Disagreements explained by an open entry of known_findings.json (syntactic trigger, or "
+            "TLC/real re-run of the defect's variant program) print KNOWN-FINDING; anything else is a VIOLATION.",
+            "Trusted: the TLA+ evaluator as the reading of docs/spec.md (self-tested by seeding errors on the specification side); the "
+            "renderer is cross-checked by re-parsing with the real parser. Bounded by generator size and tiny-scope depth.",
+            "TLA+ reference semantics evaluated by TLC; real executions of generated/enumerated programs validated against it"),
+    "C08": ("types", "model_checking",
+            "spec/Types.tla gives types their semantics as bounded value sets; TLC (MC_Types, Emit8) enumerates every (pattern type T, "
+            "value v of depth <= 2) with the verdicts must/may and the static containment; each case is rendered for the pattern forms "
+            "`='t`, `=('t)x`, typed tuple and partial patterns and run on the real code directly, tree-shaken (the quiv compile + run "
+            "path) and as the last line of a session that merged 1-2 other generated programs; TLC (spec/TypesValTrace.tla) judges "
+            "SAME (one verdict in all configurations), ACC (accepted => v inhabits T), MEM (statically contained => accepted).",
+            "Trusted: rendering of types/values to Quiver source and the projection of outcomes. Bounded: type graphs <= 3 nodes, values "
+            "of depth <= 2, 2 tuple names / 2 labels.",
+            "TLA+ type semantics; TLC-enumerated cases replayed into the implementation; verdicts validated by TLC"),
+    "C09": ("types", "model_checking",
+            "TLC (spec/MC_Types.tla) enumerates every closed contractive type graph with <= 3 nodes (plus seeded larger recursive shapes "
+            "and mutants) with the specification's Contained/Overlap verdicts and witnesses; harness typesreplay builds each graph in a "
+            "fresh quiver_core Program and records is_compatible, types_overlap, intersect_types and compute_complement of the REAL code; "
+            "TLC (spec/TypesTrace.tla) judges reflexivity, soundness of is_compatible against value-set containment, transitivity, "
+            "overlap completeness, intersection and complement coverage; findings are confirmed end to end by a rendered program.",
+            "Trusted: the value-set semantics at depth 3 as the meaning of types; graphs are registered through the public registry API.",
+            "TLA+ type semantics enumerated by TLC; answers of the real type relations validated against it by TLC"),
     "C07": ("vmstack", "model_checking",
             "spec/VMSem.tla transcribes the stack/locals effect of every instruction from execute_hot/execute_cold; spec/VMStack.tla "
-            "runs the abstract machine (height and defined-locals per pc, work-list fixpoint) over EVERY path of every function and "
+            "runs the abstract machine (height, defined-locals and nil class of the top operand per pc, work-list fixpoint) over EVERY path of every function and "
             "checks no underflow, jumps in range, table indices in range, Load defined on all paths, a unique height at joins, exit "
             "height 1, TailCall heights; corpus = std library, every source string of the test suite, spec.md examples, examples/, "
             "generated programs, each in four forms (as compiled, tree-shaken, CLI-style tree-shaken, merged into an environment); "
@@ -56,7 +84,7 @@ CHECKS = {
             "TLA+ specification of packaging histories; TLC-enumerated histories replayed into the implementation; outcomes validated by TLC"),
     "C16": ("vmstack", "model_checking",
             "Static part: spec/VMStack.tla proves on every path of every function that TailCall(true) sits at operand height exactly 1 and "
-            "TailCall(false) at exactly 2 (no operand survives an iteration). Dynamic part: 46 tail-recursive shapes (^, ^f, ^~, mutual "
+            "TailCall(false) at exactly 2 (no operand survives an iteration). Dynamic part: 54 tail-recursive shapes (^, ^f, ^~, bare ^ in nilary message-driven server loops, mutual "
             "recursion, tail calls inside nested blocks/branches/consequences, with and without a heap binary dropped per iteration) run "
             "on the real VM one instruction at a time at N=20 and 50N=1000; spec/VMTrace.tla validates both traces and spec/VMPeaks.tla "
             "judges that peak frames/locals/stack are equal at N and 50N and the heap stays bounded.",
@@ -124,6 +152,10 @@ ENGINES = [
      "kind_free_text": "spec/Equality.tla + EqualityTrace.tla over recorded verdicts; refs clause through engines/runtime.py"},
     {"name": "vmstack", "path": "engines/vmstack.py", "serves_properties": ["C07", "C16"],
      "kind_free_text": "harness bcdump/vmtrace; spec/VMSem.tla + VMStack.tla (all paths of every function) + VMTrace.tla (real VM traces) + VMPeaks.tla"},
+    {"name": "seqlang", "path": "engines/seqlang.py", "serves_properties": ["C02"],
+     "kind_free_text": "lib/seqgen.py generator + tiny-scope enumeration + real parser (harness astdump); spec/SeqLang.tla evaluator; spec/SeqLangTrace.tla judges real runs"},
+    {"name": "types", "path": "engines/types_engine.py", "serves_properties": ["C08", "C09"],
+     "kind_free_text": "TLC enumerates type graphs / (type, value) cases of spec/Types.tla; harness typesreplay/typesrun; spec/TypesTrace.tla and TypesValTrace.tla judge"},
     {"name": "packaging", "path": "engines/packaging.py", "serves_properties": ["C10"],
      "kind_free_text": "TLC enumerates merge histories (spec/Packaging.tla); harness pkgrun; spec/PackagingTrace.tla judges"},
     {"name": "repl", "path": "engines/repl_engine.py", "serves_properties": ["C11"],
@@ -152,7 +184,7 @@ def main():
                    "enable": "/verif/harness/Cargo.toml depends on /repo/quiver-core and /repo/quiver-environment with features=[\"verif\"]; "
                              "every check rebuilds the harness against /repo's working tree",
                    "baseline_off_cmd": "cd /repo && cargo nextest run --workspace --no-fail-fast --offline || cargo test --workspace --no-fail-fast --offline",
-                   "source_commits": ["a28a258", "fd85506"], "add_only": True},
+                   "source_commits": ["a28a258", "fd85506", "1458dfe"], "add_only": True},
          "engines": [e for e in ENGINES if any(p in CHECKS for p in e["serves_properties"])],
          "checks": [], "not_applicable": []}
     for pid in ALL:
